@@ -70,10 +70,14 @@ theorem prefix_V4 : Gen.tok_DecodeTokenV4_strings.head? = some prefixStrV4 ∧
     Gen.tok_TokenV4_Serialize_strings = ["", prefixStrV4] ∧ prefixV4 = strBytes "cashuB" ∧ prefixV4.length = cut := by
   decide
 
-/-- The conditions of the two decoders, in source order: there is NO length check before the slice
-    expressions (defect F9); the first condition is the prefix comparison. -/
-theorem conds_V3 : Gen.tok_DecodeTokenV3_conds = ["prefixVersion!=\"cashuA\"", "err!=nil", "err!=nil", "err!=nil"] := rfl
-theorem conds_V4 : Gen.tok_DecodeTokenV4_conds = ["prefixVersion!=\"cashuB\"", "err!=nil", "err!=nil", "err!=nil"] := rfl
+/-- The conditions of the two decoders, in source order: the length check `len(tokenstr) < cut` comes first
+    (before the slice expressions; added by the F9 fix), then the prefix comparison, the three error checks
+    and — V3 only — the check for a token without entries (`checkV3`). -/
+theorem conds_V3 : Gen.tok_DecodeTokenV3_conds =
+    ["len(tokenstr)<" ++ toString cut, "prefixVersion!=\"cashuA\"", "err!=nil", "err!=nil", "err!=nil",
+     "len(token.Token)==0"] := by decide
+theorem conds_V4 : Gen.tok_DecodeTokenV4_conds =
+    ["len(tokenstr)<" ++ toString cut, "prefixVersion!=\"cashuB\"", "err!=nil", "err!=nil", "err!=nil"] := by decide
 
 /-- Padding flag of a `base64` encoding named in the source. -/
 def padOf (callee : String) : Option Bool :=
@@ -99,7 +103,8 @@ theorem serialize_pad : Gen.tok_TokenV3_Serialize_calls.filterMap padOf = [padUR
 
 /-! ## accessors: where a panic can come from -/
 
-/-- `TokenV3.Mint()` contains the index expression `t.Token[0]` and no guard (defect F9). -/
+/-- `TokenV3.Mint()` contains the index expression `t.Token[0]` and no guard (`mintV3` panics on an empty list;
+    since the F9 fix `DecodeTokenV3` does not return such a token). -/
 theorem mintV3_index : Gen.tok_TokenV3_Mint_indexes = ["t.Token[0]"] ∧ Gen.tok_TokenV3_Mint_conds = [] := ⟨rfl, rfl⟩
 
 /-- No other accessor contains an index or slice expression; the only pointer dereferenced
